@@ -699,8 +699,58 @@ fn query(pool: &[Option<Obj>], toks: &[&str]) -> String {
                         let fused = it.next().is_none() && it.next().is_none();
                         let sat = f.sat_point();
                         let sat_s = match &sat { None => "none".to_string(), Some(p) => pt(p) };
+                        // the iterator protocol itself (Model/Iter.v): the four iterators are created first and then
+                        // stepped in turn by next(), 2^n + 2 times each; nth(n) and nth(2^n - 1) each followed by one
+                        // more next(); count() of the image; last() of the domain
+                        let iters = if f.degree() > 12 { String::new() } else {
+                            let n = f.degree();
+                            let k = (1usize << n) + 2;
+                            let (mut i1, mut i2, mut i3, mut i4) = (f.domain(), f.image(), f.relation(), f.support());
+                            let (mut d, mut im, mut rl, mut su) = (vec![], vec![], vec![], vec![]);
+                            for _ in 0..k {
+                                d.push(i1.next());
+                                im.push(i2.next());
+                                rl.push(i3.next());
+                                su.push(i4.next());
+                            }
+                            let optp = |o: &Option<Vec<bool>>| match o { None => "~".to_string(), Some(p) => pt(p) };
+                            let optr = |o: &Option<(Vec<bool>, bool)>| match o { None => "~".to_string(), Some((p, b)) => format!("{}:{}", pt(p), *b as u8) };
+                            if $is_b {
+                                // order of a diagram's support is lib-bdd's: items sorted, the None answers kept in place
+                                let mut some: Vec<Option<Vec<bool>>> = su.iter().filter(|x| x.is_some()).cloned().collect();
+                                some.sort();
+                                let mut it = some.into_iter();
+                                su = su.iter().map(|x| if x.is_some() { it.next().unwrap() } else { None }).collect();
+                            }
+                            let nth2 = (1usize << n) - 1;
+                            let (mut a1, mut a2, mut a3, mut a4) = (f.domain(), f.domain(), f.relation(), f.relation());
+                            let (x1, x2, x3, x4) = (a1.nth(n), a2.nth(nth2), a3.nth(n), a4.nth(nth2));
+                            // partly consumed iterators (after nth(n) and one more next()): count(), last(), and
+                            // size_hint() must bound what is really left
+                            let (mut c1, mut c2, mut c3) = (f.domain(), f.domain(), f.image());
+                            c1.nth(n); c1.next(); c2.nth(n); c2.next(); c3.nth(n); c3.next();
+                            let rest = format!("{}/{};{}", c1.count(), optp(&c2.last()), c3.count());
+                            let mut sh_ok = true;
+                            macro_rules! hint { ($it:expr) => {{ let mut it = $it; it.nth(n); it.next(); let (lo, hi) = it.size_hint(); let rem = it.count(); if lo > rem || hi.map_or(false, |h| rem > h) { sh_ok = false; } }}; }
+                            hint!(f.domain()); hint!(f.image()); hint!(f.relation()); hint!(f.support());
+                            macro_rules! hint0 { ($it:expr) => {{ let it = $it; let (lo, hi) = it.size_hint(); let rem = it.count(); if lo > rem || hi.map_or(false, |h| rem > h) { sh_ok = false; } }}; }
+                            hint0!(f.domain()); hint0!(f.image()); hint0!(f.relation()); hint0!(f.support());
+                            format!(
+                                " nx.dom={} nx.img={} nx.rel={} nx.sup={} nth.dom={}/{};{}/{} nth.rel={}/{};{}/{} cnt.img={} last.dom={} rest={}{}",
+                                d.iter().map(optp).collect::<Vec<_>>().join(","),
+                                im.iter().map(|o| match o { None => "~", Some(true) => "1", Some(false) => "0" }).collect::<Vec<_>>().join(""),
+                                rl.iter().map(optr).collect::<Vec<_>>().join(","),
+                                su.iter().map(optp).collect::<Vec<_>>().join(","),
+                                optp(&x1), optp(&a1.next()), optp(&x2), optp(&a2.next()),
+                                optr(&x3), optr(&a3.next()), optr(&x4), optr(&a4.next()),
+                                f.image().count(),
+                                optp(&f.domain().last()),
+                                rest,
+                                if sh_ok { "" } else { " sh=0" }
+                            )
+                        };
                         format!(
-                            "kind={} inputs={} ess={} deg={} essdeg={} dom={} img={} rel={} sup={} w={} sat={} nodes={}{}",
+                            "kind={} inputs={} ess={} deg={} essdeg={} dom={} img={} rel={} sup={} w={} sat={} nodes={}{}{}",
                             kind_char(&o),
                             names(f.inputs().iter()),
                             names(f.essential_inputs().iter()),
@@ -713,7 +763,8 @@ fn query(pool: &[Option<Obj>], toks: &[&str]) -> String {
                             f.weight(),
                             sat_s,
                             $nodes,
-                            if fused { "" } else { " fused=0" }
+                            if fused { "" } else { " fused=0" },
+                            iters
                         )
                     }};
                 }
@@ -972,6 +1023,77 @@ fn deep_pool(pool: &[Option<Obj>]) -> Vec<Option<Obj>> {
         .collect()
 }
 
+fn dbg_obj(o: &Obj) -> String {
+    match o { Obj::E(e) => format!("{:?}", e), Obj::T(t) => format!("{:?}", t), Obj::B(b) => format!("{:?}", b) }
+}
+
+/// purity as the public traits see it: a clone and the Debug text of every register, taken before a call
+fn snapshot(pool: &[Option<Obj>]) -> Vec<Option<(Obj, String)>> {
+    pool.iter().map(|o| o.as_ref().map(|o| (o.clone(), dbg_obj(o)))).collect()
+}
+
+/// every register still `==` the clone taken before the call and still has the same Debug text
+/// (an operand altered through interior mutability - a cache cell, a counter - shows here)
+fn unchanged(pool: &[Option<Obj>], before: &[Option<(Obj, String)>]) -> bool {
+    pool.iter().zip(before.iter()).all(|(now, was)| match (now, was) {
+        (Some(Obj::E(a)), Some((Obj::E(b), d))) => a == b && format!("{:?}", a) == *d,
+        (Some(Obj::T(a)), Some((Obj::T(b), d))) => a == b && format!("{:?}", a) == *d,
+        (Some(Obj::B(a)), Some((Obj::B(b), d))) => a == b && format!("{:?}", a) == *d,
+        (None, None) => true,
+        _ => false,
+    })
+}
+
+/// The instructions above work on clones of the registers, so a method that alters `self` through interior
+/// mutability (a cache cell, a counter) never touches the register itself.  This probe calls the `&self` methods
+/// of the public API on the register in place and then compares it (`==`, Debug text) with the clone taken
+/// before: false = some method altered its operand observably.
+fn probe_purity(o: &Obj) -> bool {
+    let before = o.clone();
+    let dbg = dbg_obj(o);
+    macro_rules! battery {
+        ($f:expr) => {{
+            let f = $f;
+            let names: Vec<String> = f.inputs().into_iter().collect();
+            let empty: BTreeMap<String, bool> = BTreeMap::new();
+            let _ = f.degree();
+            let _ = f.essential_inputs();
+            let _ = f.essential_degree();
+            let _ = f.weight();
+            let _ = f.sat_point();
+            if names.len() <= 12 {
+                let _ = f.domain().count();
+                let _ = f.image().count();
+                let _ = f.relation().count();
+                let _ = f.support().count();
+            }
+            let _ = f.evaluate(&empty);
+            let _ = f.evaluate_with_default(&empty, true);
+            let _ = f.evaluate_checked(&empty);
+            let _ = f.is_equivalent(f);
+            let _ = f.is_implied_by(f);
+            let _ = f.restrict(&empty);
+            let first: BTreeSet<String> = names.iter().take(1).cloned().collect();
+            let _ = f.existential_quantification(first.clone());
+            let _ = f.universal_quantification(first.clone());
+            let _ = f.derivative(first);
+            let _ = format!("{:?}", f);
+        }};
+    }
+    let r = catch_unwind(AssertUnwindSafe(|| match o {
+        Obj::E(e) => { battery!(e); let _ = e.to_string(); let _ = e.to_nnf(); if e.inputs().len() <= 12 { let _ = T::from(e.clone()); } }
+        Obj::T(t) => { if !t.verif_raw().1.is_empty() { battery!(t); let _ = t.to_string(); } }
+        Obj::B(b) => { battery!(b); let _ = b.node_count(); let _ = b.clone() & b.clone(); let _ = !b.clone(); if b.inputs().len() <= 12 { let _ = T::from(b.clone()); } }
+    }));
+    let _ = r;
+    match (o, &before) {
+        (Obj::E(a), Obj::E(b)) => a == b && format!("{:?}", a) == dbg,
+        (Obj::T(a), Obj::T(b)) => a == b && format!("{:?}", a) == dbg,
+        (Obj::B(a), Obj::B(b)) => a == b && format!("{:?}", a) == dbg,
+        _ => false,
+    }
+}
+
 fn main() {
     std::panic::set_hook(Box::new(|_| {}));
     let mut args: Vec<String> = std::env::args().collect();
@@ -1009,8 +1131,12 @@ fn main() {
             }
             "r" => {
                 lineno += 1;
+                let before = if twice { snapshot(&pool) } else { vec![] };
                 let res = catch_unwind(AssertUnwindSafe(|| exec(&pool, &toks[1..])));
                 let mut variant = String::new();
+                if twice && !unchanged(&pool, &before) {
+                    variant.push_str(" pure=0");
+                }
                 if twice {
                     let copies = deep_pool(&pool);
                     let again = catch_unwind(AssertUnwindSafe(|| exec(&copies, &toks[1..])));
@@ -1027,6 +1153,9 @@ fn main() {
                 }
                 let status = match res {
                     Ok(Step::Ok(o)) => {
+                        if twice && !probe_purity(&o) {
+                            variant.push_str(" pure=0");
+                        }
                         pool.push(Some(o));
                         "ok"
                     }
@@ -1036,7 +1165,7 @@ fn main() {
                     }
                     Ok(Step::ErrV(v)) => {
                         pool.push(None);
-                        variant = format!(" variant={}", v);
+                        variant.push_str(&format!(" variant={}", v));
                         "err"
                     }
                     Ok(Step::Na) => {
@@ -1052,11 +1181,15 @@ fn main() {
             }
             "q" => {
                 lineno += 1;
+                let before = if twice { snapshot(&pool) } else { vec![] };
                 let res = catch_unwind(AssertUnwindSafe(|| query(&pool, &toks[1..])));
                 let mut s = match res {
                     Ok(s) => s,
                     Err(_) => "panic".to_string(),
                 };
+                if twice && !unchanged(&pool, &before) {
+                    s.push_str(" pure=0");
+                }
                 if twice {
                     let copies = deep_pool(&pool);
                     let again = match catch_unwind(AssertUnwindSafe(|| query(&copies, &toks[1..]))) {
